@@ -1184,6 +1184,20 @@ class DatasetWorld(object):
             data = np.asarray(m.sparse_clusters.data)
             ids = sc
             n = int(m.n_clusters)
+            if not _aeq(sc, g.stemplates) and data.shape[0] == int(sc.max()) + 1:
+                # the per-cluster summaries are defined on the cluster waveforms of C08: do not
+                # trust the model's array, recompute it from the ground truth where unambiguous
+                cands, amb = ref.reference_cluster_waveforms(
+                    R, sc, g.stemplates, np.asarray(g.tmpl_data, dtype=np.float64),
+                    cfg['nsw'], cfg['nc'])
+                scale_ = max(float(np.abs(np.asarray(g.tmpl_data)).max()), 1e-300)
+                for c_ in range(data.shape[0]):
+                    if c_ in amb:
+                        continue
+                    ctx.check(any(np.all(np.abs(data[c_] - e_) <= 1e-6 * scale_)
+                                  for e_ in cands[c_]),
+                              'cluster-waveform-not-the-weighted-mean-of-its-templates',
+                              lambda: {'cluster': c_})
         else:
             data = np.asarray(g.tmpl_data)
             ids = g.stemplates
